@@ -754,7 +754,7 @@ pub fn run(tier: Tier) -> i32 {
         "sequentially consistent atomics (weak memory not modelled)".into(),
         "the scripted peer consumes everything (no back-pressure) unless the variant says otherwise".into(),
     ];
-    let cap = Duration::from_secs(if tier.is_thorough() { 1200 } else { 60 });
+    let cap = Duration::from_secs(if tier.is_thorough() { 1200 } else { 85 });
     run_items(
         &mut rep,
         "C11",
